@@ -196,6 +196,18 @@ def oracle(sc, impl, aligned):
                         n, puts[0][2])))
             if s in ('failed', 'missing') and matching(n) and n in by_name and f['err'].get(n, [None])[0] != 'put':
                 out['C19'].append(('delivered-but-failed', 'module %d was delivered by a borrower but still counts as %s' % (n, s)))
+    # ---- C08 (any scenario): a module already parsed under another request is never fetched again
+    registered, current = {}, None
+    for c in impl['trace']:
+        if c[0] == 'get':
+            current = c[2]
+            if c[2] in registered and registered[c[2]] != c[2]:
+                out['C08'].append(('fetch-once', 'module %d was already parsed (from the file requested as %d) and is fetched again' % (
+                    c[2], registered[c[2]])))
+        elif c[0] == 'sym':
+            a = sc['sym'].get(str(c[1]), 'err')
+            if a != 'err':
+                registered.setdefault(a[1], current)
     # ---- C09 (any scenario)
     pre_gate_fail = [n for n, s in st.items() if s == 'missing' or (s == 'failed' and f['err'].get(n) and f['err'][n][0] != 'put')]
     if pre_gate_fail and not o.get('ignoreErrors'):
@@ -204,9 +216,33 @@ def oracle(sc, impl, aligned):
         for n, s in st.items():
             if s in ('compiled', 'borrowed'):
                 out['C09'].append(('gate', 'modules %r failed, errors not ignored, yet %d is reported %s' % (pre_gate_fail, n, s)))
+    if aligned:
+        # ground truth from the scenario itself: which modules cannot be found/parsed/generated nor borrowed
+        g = bool(o.get('genTexts'))
+        stuck = []
+        for n, h in closure(sc).items():
+            if h:
+                answers = [s_.get(str(n), 'nf') for s_ in sc['searchers']]
+                if 'nm' in answers or (o.get('noDeps') and n not in sc['req']):
+                    continue
+                if sc['gen'].get(str(h[2][0]), 'err') != 'err':
+                    continue
+            eligible = (not o.get('noDeps')) or n in sc['req']
+            deliver = [b for b in sc['borrowers'] if isinstance(b['table'].get(str(n)), list)
+                       and (b.get('flavour') is None or b['flavour'] == g)]
+            if eligible and deliver:
+                continue
+            stuck.append(n)
+        if stuck and not o.get('ignoreErrors'):
+            if f['puts']:
+                out['C09'].append(('gate', 'modules %r cannot be compiled nor borrowed, errors not ignored, yet the writer was called: %r' % (stuck, f['puts'])))
+            for n, s in st.items():
+                if s in ('compiled', 'borrowed'):
+                    out['C09'].append(('gate', 'modules %r cannot be compiled nor borrowed, errors not ignored, yet %d is reported %s' % (stuck, n, s)))
+        for n in stuck:
+            if st.get(n) not in ('failed', 'missing'):
+                out['C09'].append(('bad-keeps-status', 'module %d cannot be compiled nor borrowed but is reported %s' % (n, st.get(n))))
     if o.get('ignoreErrors') and aligned:
-        for c in f['gens']:
-            pass
         for n, s in st.items():
             if s == 'unprocessed':
                 out['C09'].append(('ignore', 'errors ignored but module %d left unprocessed' % n))
